@@ -81,6 +81,7 @@ type Op struct {
 	Bad      string // non-empty: deliberately bad request of this class
 	Sub      *Submission
 	Deadline time.Duration
+	Legacy   bool
 
 	mu        sync.Mutex
 	Calls     []*BackendCall
@@ -314,12 +315,22 @@ func (m *MemStore) party(ctx context.Context) string {
 	return "anon"
 }
 
+func (m *MemStore) note(ctx context.Context, d kernel.Decision) {
+	if op := opFrom(ctx); op != nil && d.Kind != "ok" {
+		op.mu.Lock()
+		op.StoreOps = append(op.StoreOps, d.Kind)
+		op.mu.Unlock()
+	}
+}
+
 // FindByKey implements IssuanceChainStorage.
 func (m *MemStore) FindByKey(ctx context.Context, key []byte) ([]byte, error) {
 	d, err := m.S.Seam(ctx, m.party(ctx), "store.Find", "", key)
 	if err != nil {
+		m.note(ctx, kernel.Decision{Kind: "ctx"})
 		return nil, err
 	}
+	m.note(ctx, d)
 	switch d.Kind {
 	case "shutdown", "store.err":
 		return nil, fmt.Errorf("injected storage error SECRET-store")
@@ -341,8 +352,10 @@ func (m *MemStore) FindByKey(ctx context.Context, key []byte) ([]byte, error) {
 func (m *MemStore) Add(ctx context.Context, key []byte, chain []byte) error {
 	d, err := m.S.Seam(ctx, m.party(ctx), "store.Add", "", key)
 	if err != nil {
+		m.note(ctx, kernel.Decision{Kind: "ctx"})
 		return err
 	}
+	m.note(ctx, d)
 	switch d.Kind {
 	case "shutdown", "store.err":
 		return fmt.Errorf("injected storage error SECRET-store")
@@ -372,64 +385,95 @@ func corrupt(v []byte, how int64) []byte {
 	return v
 }
 
-// ChaosCache is an IssuanceChainCache whose every Get and Set is a seam: it
-// can miss, evict, expire, fail, and fills land whenever the driver says.
-type ChaosCache struct {
-	S    *kernel.Sim
-	mu   sync.Mutex
-	Rows map[string][]byte
-	seq  int
+// SimCache wraps an IssuanceChainCache (the real LRU, the noop cache, or a
+// plain map) so that every Get and Set is a seam: a Get may be forced to miss
+// or fail, and the detached cache fills of services.go land whenever the
+// driver says (or never).
+type SimCache struct {
+	S     *kernel.Sim
+	Inner cache.IssuanceChainCache
+	Map   *mapCache // non-nil when Inner is the plain map (supports eviction)
 }
 
-var _ cache.IssuanceChainCache = (*ChaosCache)(nil)
+var _ cache.IssuanceChainCache = (*SimCache)(nil)
 
 // Get implements IssuanceChainCache.
-func (c *ChaosCache) Get(ctx context.Context, key []byte) ([]byte, error) {
+func (c *SimCache) Get(ctx context.Context, key []byte) ([]byte, error) {
 	party := "anon"
-	if op := opFrom(ctx); op != nil {
+	op := opFrom(ctx)
+	if op != nil {
 		party = op.Party
 	}
 	d, err := c.S.Seam(ctx, party, "cache.Get", "", key)
 	if err != nil {
+		d = kernel.Decision{Kind: "ctx"}
+	}
+	if op != nil && d.Kind == "ctx" {
+		op.mu.Lock()
+		op.StoreOps = append(op.StoreOps, d.Kind)
+		op.mu.Unlock()
 		return nil, err
 	}
-	c.mu.Lock()
-	defer c.mu.Unlock()
+	if op != nil && d.Kind != "ok" {
+		op.mu.Lock()
+		op.StoreOps = append(op.StoreOps, d.Kind)
+		op.mu.Unlock()
+	}
 	switch d.Kind {
 	case "shutdown", "cache.err":
 		return nil, fmt.Errorf("injected cache error SECRET-cache")
 	case "cache.miss":
 		return nil, nil
 	case "cache.evict":
-		delete(c.Rows, string(key))
-		return nil, nil
-	case "cache.evictall":
-		c.Rows = map[string][]byte{}
+		if c.Map != nil {
+			c.Map.evict(key)
+		}
 		return nil, nil
 	}
-	if v, ok := c.Rows[string(key)]; ok {
-		return bytes.Clone(v), nil
-	}
-	return nil, nil
+	return c.Inner.Get(ctx, key)
 }
 
 // Set implements IssuanceChainCache. It is called from detached goroutines of
 // the code under test, so its seam key uses the content (hash prefix).
-func (c *ChaosCache) Set(ctx context.Context, key []byte, chain []byte) error {
-	d, err := c.S.Seam(nil, "cachefill", "cache.Set", fmt.Sprintf("%x", key[:min(4, len(key))]), key)
+func (c *SimCache) Set(ctx context.Context, key []byte, chain []byte) error {
+	d, err := c.S.Seam(nil, "cachefill", "cache.Set", fmt.Sprintf("%x", key[:min(6, len(key))]), key)
 	if err != nil {
 		return err
 	}
-	c.mu.Lock()
-	defer c.mu.Unlock()
 	switch d.Kind {
 	case "shutdown", "cache.err":
 		return fmt.Errorf("injected cache error SECRET-cache")
 	case "cache.drop":
 		return nil
 	}
-	c.Rows[string(key)] = bytes.Clone(chain)
+	return c.Inner.Set(ctx, key, chain)
+}
+
+type mapCache struct {
+	mu   sync.Mutex
+	rows map[string][]byte
+}
+
+func (m *mapCache) Get(_ context.Context, key []byte) ([]byte, error) {
+	m.mu.Lock()
+	defer m.mu.Unlock()
+	if v, ok := m.rows[string(key)]; ok {
+		return bytes.Clone(v), nil
+	}
+	return nil, nil
+}
+
+func (m *mapCache) Set(_ context.Context, key, chain []byte) error {
+	m.mu.Lock()
+	defer m.mu.Unlock()
+	m.rows[string(key)] = bytes.Clone(chain)
 	return nil
+}
+
+func (m *mapCache) evict(key []byte) {
+	m.mu.Lock()
+	defer m.mu.Unlock()
+	delete(m.rows, string(key))
 }
 
 // ---- instance construction ----
